@@ -432,6 +432,7 @@ class Checker:
         ctx.count("oracle-package")
         ctx.nontrivial(("pkg", name, len(a["objects"]), a["last"]))
         sigs = self.signatures(a, defects, alloc)
+        sigs += self.extra_structure(a, dst)
         if keep and len(self.abstracts) < 12:
             self.abstracts.append((name, dict(a, objects=[{k: v for k, v in o.items() if k not in ("msg", "bytes")} for o in a["objects"]])))
         self.sample_rows(name, dst)
@@ -458,6 +459,40 @@ class Checker:
         except Exception as e:  # noqa: BLE001
             sigs.append((f"reopen-raises:{type(e).__name__}", f"{type(e).__name__}: {e}"[:200]))
         return sigs
+
+    def extra_structure(self, a, dst: A.Pkg) -> list:
+        """Implementation-only clauses next to the verified checker's: (1) the header buckets of a rewritten table describe
+        exactly its declared rows and columns; (2) the archive header of an object the library created or rewrote lists
+        every object its body refers to (the header's reference list is what Numbers uses to find an archive's
+        dependencies)."""
+        out = []
+        by_id = {o["id"]: o for o in dst.objects}
+        rew = {t["id"]: t for t in a["tables"] if t["rewritten"]}
+        for o in dst.objects:
+            if o["tname"] == "TST.TableModelArchive" and o["id"] in rew:
+                t = rew[o["id"]]
+                bds = o["msg"].base_data_store
+                col = by_id.get(bds.columnHeaders.identifier)
+                if col is not None:
+                    idx = sorted(h.index for h in col["msg"].headers)
+                    if idx != list(range(t["ncols"])):
+                        out.append(("header-bucket:columns", f"table {o['id']} declares {t['ncols']} columns, its column header bucket describes {idx[:12]}"))
+                rows = []
+                for b in bds.rowHeaders.buckets:
+                    rb = by_id.get(b.identifier)
+                    if rb is not None:
+                        rows += [h.index for h in rb["msg"].headers]
+                if rows and sorted(rows) != list(range(t["nrows"])):
+                    out.append(("header-bucket:rows", f"table {o['id']} declares {t['nrows']} rows, its row header buckets describe {len(rows)} rows ({sorted(rows)[:8]}...)"))
+        for o in a["objects"]:
+            if not o["touched"]:
+                continue
+            body = {r for r, _ in o["refs"] if r != 0}
+            missing = sorted(body - set(o["hrefs"]))
+            if missing:
+                out.append((f"header-omits-reference:{o['tname']}", f"object {o['id']} ({o['tname']}) refers to {missing[:6]} but its archive header object_references omits them"))
+                break
+        return out
 
     def sample_rows(self, name, dst: A.Pkg):
         """abs_row of the model on the records found in a saved row = the harness' abstraction of that row."""
@@ -912,7 +947,7 @@ def run(ctx: Ctx) -> int:
     mark("shapes")
     # ---- E. fixtures: plain re-save, and re-save after an edit
     fx = fixtures()
-    always = [f for f in fx if Path(f).name in ("issue-3.numbers", "test-1.numbers", "create-formulas.numbers", "issue-14.numbers")]
+    always = [f for f in fx if Path(f).name in ("issue-3.numbers", "test-1.numbers", "create-formulas.numbers", "issue-14.numbers", "issue-9.numbers")]
     sample = always + rng.sample([f for f in fx if f not in always], 10) if ctx.quick else fx
     for f in sample:
         nm = Path(f).stem
@@ -925,9 +960,9 @@ def run(ctx: Ctx) -> int:
         case = {"name": "resave-" + nm, "base": f, "ops": []}
         report(ctx, chk, case, run_case(ctx.tmp, case, chk), rerun=False)
         ctx.dist("cases:fixture-resave")
-        if ctx.quick and rng.random() < 0.5:
+        if ctx.quick and rng.random() < 0.5 and f not in always:
             continue
-        case = {"name": "edit-" + nm, "base": f, "ops": [["W", 0, 1, 1, ["s", "edited"]], ["ST", 0, 0, 0, 2, 0], ["NT", 0, 2, 2], ["SV"], ["W", 1, 0, 0, ["i", 3]]]}
+        case = {"name": "edit-" + nm, "base": f, "ops": [["W", 0, 1, 1, ["s", "edited"]], ["ST", 0, 0, 0, 2, 0]] + [["CT", ti, 1, 1, 4, 3] for ti in range(8)] + [["CT", 0, 0, 1, 2, 3], ["NT", 0, 2, 2], ["SV"], ["W", 1, 0, 0, ["i", 3]]]}
         report(ctx, chk, case, run_case(ctx.tmp, case, chk), rerun=False)
         ctx.dist("cases:fixture-edit")
         chk.flush()
